@@ -98,7 +98,7 @@ func checkC15(tier string) *dr.Result {
 	c.sample(map[string]any{"table": "inotify newEvent", "mask": "IN_MOVED_TO|IN_ATTRIB|IN_ISDIR", "want": "CREATE|CHMOD"})
 
 	// ---------- inotify: requested ops -> kernel mask (read back from the kernel) ----------
-	c15Request(c)
+	c15Request(c, tier)
 
 	// ---------- kqueue ----------
 	kbits := []uint32{0x1, 0x2, 0x4, 0x8, 0x10, 0x20, 0x40, 0x80, 0x100, 0x200, 0x400} // DELETE WRITE EXTEND ATTRIB LINK RENAME REVOKE OPEN CLOSE CLOSE_WRITE READ
@@ -232,7 +232,7 @@ func checkC15(tier string) *dr.Result {
 // c15Request: for every subset of the nine operations x {follow, no-follow},
 // a real AddWith on a real Watcher; the mask the kernel holds is read back
 // from /proc/self/fdinfo.
-func c15Request(c *collector) {
+func c15Request(c *collector, tier string) {
 	dir, err := os.MkdirTemp("/dev/shm", "c15-")
 	if err != nil {
 		dir, err = os.MkdirTemp("", "c15-")
@@ -316,6 +316,69 @@ func c15Request(c *collector) {
 		}
 	}
 	c.sample(map[string]any{"table": "inotify AddWith request", "ops": "REMOVE|RENAME", "nofollow": true, "want_kernel_mask": fmt.Sprintf("%#x", inDELETE|inDELETESELF|inMOVEDTO|inMOVEDFROM|inMOVESELF)})
+	// Not only from the initial state: sequences of requests for the same path.
+	// Everything requested for a path while it stays watched must remain
+	// observable, and nothing else may be subscribed: after AddWith(s1) ...
+	// AddWith(sk) the kernel-side mask is exactly the flags for s1|...|sk.
+	// Every ordered triple of non-empty subsets of the five portable
+	// operations (quick), plus every ordered pair of non-empty subsets of all
+	// nine and every ordered triple over the nine single operations and the
+	// default set (thorough).
+	wantFor := func(v uint32) uint32 {
+		var want uint32
+		for op, fl := range opToInotify {
+			if v&op != 0 {
+				want |= fl
+			}
+		}
+		return want
+	}
+	seqBad := false
+	runSeq := func(seq []uint32) {
+		var union uint32
+		for i, v := range seq {
+			union |= v
+			e := w.AddWith(target, fsnotify.VerifWithOps(fsnotify.Op(v)))
+			c.r.Transitions++
+			marks := readMarks(fd)
+			if e != nil || len(marks) != 1 || marks[0].mask&0xfff != wantFor(union) {
+				if !seqBad {
+					c.bad("inotify-request", "after several requests for one path the kernel-side mask is not the flags needed for everything requested",
+						fmt.Sprintf("AddWith sequence %#x, after call %d: err=%v kernel marks=%+v want mask %#x", seq, i+1, e, marks, wantFor(union)), map[string]any{"seq": seq})
+				}
+				seqBad = true
+				break
+			}
+		}
+		c.r.States++
+		w.Remove(target)
+	}
+	for a := uint32(1); a < 32; a++ {
+		for b := uint32(1); b < 32; b++ {
+			for d := uint32(1); d < 32; d++ {
+				runSeq([]uint32{a, b, d})
+			}
+		}
+	}
+	c.r.Extra["inotify_request_sequences"] = "all ordered triples of non-empty subsets of the 5 portable operations"
+	if tier == "thorough" {
+		for a := uint32(1); a < 512; a++ {
+			for b := uint32(1); b < 512; b++ {
+				runSeq([]uint32{a, b})
+			}
+		}
+		singles := []uint32{1, 2, 4, 8, 16, 32, 64, 128, 256, 0x1f}
+		for _, a := range singles {
+			for _, b := range singles {
+				for _, d := range singles {
+					for _, e := range singles {
+						runSeq([]uint32{a, b, d, e})
+					}
+				}
+			}
+		}
+		c.r.Extra["inotify_request_sequences"] = "all ordered triples of non-empty subsets of the 5 portable operations; all ordered pairs of non-empty subsets of the 9 operations; all ordered 4-tuples over the 9 single operations and the default set"
+	}
 	// the default set
 	if uint32(fsnotify.VerifDefaultOps()) != opCreate|opWrite|opRemove|opRename|opChmod {
 		c.bad("inotify-request", "default operation set is not the five portable operations", fmt.Sprint(fsnotify.VerifDefaultOps()), nil)
